@@ -996,7 +996,7 @@ def check(chk):
         "harness-owned tables: float token -> IEEE bits, canonical text encoding enc() (python3 running the same calls validates both on every run)",
         "the reading side uses github.com/goplus/lib/py accessors plus five C-API declarations of its own (harness/c19/gomod/pyx) for "
         "str/bytes/bytearray contents; lib/py's (*Object).CStrAndLen is declared with a signature that does not match PyUnicode_AsUTF8AndSize and is not used",
-        "an import request is observed as a call of builtins.__import__ with the C API's ['__doc__'] from-list (sitecustomize hook)",
+        "an import request is observed as a call of builtins.__import__ with a list as from-list, which only the C API passes (sitecustomize hook)",
         "only -O0 builds; reference counts are not observed (objects are never released by the test programs)",
         "Go fixes initialisation order only up to 'imports first': any topological order of packages and bindings is accepted",
     ]
